@@ -6,6 +6,7 @@ import (
 	"fmt"
 	"io"
 	"sync"
+	"sync/atomic"
 	"time"
 
 	"github.com/btcsuite/btclog/v2"
@@ -59,6 +60,14 @@ type GoBackNConn struct {
 	pingTicker *IntervalAwareForceTicker
 	pongTicker *IntervalAwareForceTicker
 
+	// lastRecvAt is the time, measured from createdAt, at which the
+	// receive loop last got a packet. It is stored before the receive loop
+	// stops the pong timer, so that the send loop can tell a ping tick
+	// that raced with a received packet from one that really follows a
+	// silent ping interval.
+	lastRecvAt atomic.Int64
+	createdAt  time.Time
+
 	ctx    context.Context //nolint:containedctx
 	cancel func()
 
@@ -98,6 +107,7 @@ func newGoBackNConn(ctx context.Context, cfg *config,
 		remoteClosed:      make(chan struct{}),
 		ctx:               ctxc,
 		cancel:            cancel,
+		createdAt:         time.Now(),
 		log:               plog,
 		quit:              make(chan struct{}),
 		timeoutManager:    timeoutManager,
@@ -548,6 +558,24 @@ func (g *GoBackNConn) sendPacketsForever() error {
 				}
 				g.pingTicker.Reset()
 
+				// If a packet arrived while this tick was on
+				// its way, the receive loop may have stopped
+				// the pong timer just before we started it, and
+				// if that packet was the ACK that empties the
+				// window there is no probe left to be answered.
+				// Such a tick does not follow a silent ping
+				// interval: stop the pong timer again. The
+				// receive loop notes the arrival before it
+				// stops the timer, so one of the two always
+				// sees the other.
+				sinceRecv := time.Since(g.createdAt) -
+					time.Duration(g.lastRecvAt.Load())
+				if sinceRecv < g.timeoutManager.GetPingTime() {
+					g.pongTicker.Pause()
+
+					break
+				}
+
 				if err := resendQueue(); err != nil {
 					return err
 				}
@@ -593,6 +621,7 @@ func (g *GoBackNConn) receivePacketsForever() error { // nolint:gocyclo
 
 		// Reset the ping & pong timer if any packet is received.
 		// If ping/pong is disabled, this is a no-op.
+		g.lastRecvAt.Store(int64(time.Since(g.createdAt)))
 		g.pingTicker.Reset()
 		if g.pongTicker.IsActive() {
 			g.pongTicker.Pause()
